@@ -146,4 +146,36 @@ pub fn run(out: &mut Out, _tier: &str, _seed: u64) {
                   Ok(o) => out.hit("typestate.permitted-program-rejected", format!("control program for {} does not compile: {}", cont, String::from_utf8_lossy(&o.stderr).chars().take(400).collect::<String>()), json!({"source":src})),
                   Err(_) => out.hit("harness.rustc-missing", "rustc +nightly not runnable".into(), json!({})) }
     }
+    // every permitted cell of every state a safe program can reach also RUNS without faulting: one binary per container, one
+    // process per (state, operation); a transition the OS refuses (locking a no-access mapping) must come back as Err, not a fault
+    for c in 1..=2usize {
+        let cont = if c == 1 { "HeapBytes" } else { "HeapByteArray<32>" };
+        let ctor = if c == 1 { "HeapBytes" } else { "HeapByteArray::<32>" };
+        let (pms, lms) = (["ReadWrite", "ReadOnly", "NoAccess"], ["Unlocked", "Locked"]);
+        let paths = [((0usize, 1usize), ""), ((1, 1), ".mprotect_readonly().unwrap()"), ((0, 0), ".munlock().unwrap()"), ((1, 0), ".munlock().unwrap().mprotect_readonly().unwrap()"), ((2, 0), ".munlock().unwrap().mprotect_noaccess().unwrap()")];
+        let mut fns = String::new(); let mut arms = String::new(); let mut cells: Vec<(usize, usize, usize)> = vec![];
+        for ((pm, lm), path) in paths.iter() { for op in 0..NOPS {
+            if !permitted(c, *pm, *lm, op) { continue; }
+            let k = cells.len(); cells.push((*pm, *lm, op));
+            fns.push_str(&format!("fn check_{k}(p: Protected<{cont}, tr::{}, tr::{}>) {{ {} }}\nfn cell_{k}() {{ let p = {ctor}::from_slice_into_locked(&[7u8; 32]).unwrap(){path}; check_{k}(p); }}\n", pms[*pm], lms[*lm], snippet(op)));
+            arms.push_str(&format!("{k} => cell_{k}(), "));
+        } }
+        let src = format!("#![feature(allocator_api)]\n#![allow(unused)]\nuse dryoc::protected::*;\nuse dryoc::protected::traits as tr;\nuse dryoc::types::*;\n{fns}fn main() {{ let k: usize = std::env::args().nth(1).unwrap().parse().unwrap(); match k {{ {arms}_ => {{}} }} }}\n");
+        let path = format!("{}/cells_{}.rs", dir, c);
+        std::fs::write(&path, &src).unwrap();
+        let bin = format!("{}/cells_{}", dir, c);
+        let o = Command::new("rustc").args(["+nightly", "--edition", "2021", "-L", &format!("dependency={}", deps), "--extern", &format!("dryoc={}", rlib), "-o", &bin, &path]).output();
+        match o {
+            Ok(o) if o.status.success() => {
+                for (k, (pm, lm, op)) in cells.iter().enumerate() {
+                    out.search_evaluations += 1;
+                    let st = Command::new(&bin).arg(k.to_string()).stderr(std::process::Stdio::null()).status();
+                    let ok = st.as_ref().map(|s| s.success()).unwrap_or(false);
+                    if !ok { out.hit("typestate.permitted-program-faults", format!("{}: state ({}, {}), operation {}: the permitted program ends with {:?}", cont, pms[*pm], lms[*lm], OPS[*op], st.ok()), json!({"op":"typestate.run","container":cont,"pm":pm,"lm":lm,"operation":OPS[*op],"snippet":snippet(*op)})); }
+                }
+            }
+            Ok(o) => out.hit("typestate.permitted-program-rejected", format!("the runtime program for {} does not compile: {}", cont, String::from_utf8_lossy(&o.stderr).chars().take(600).collect::<String>()), json!({"source":src})),
+            Err(_) => out.hit("harness.rustc-missing", "rustc +nightly not runnable".into(), json!({})),
+        }
+    }
 }
